@@ -49,5 +49,17 @@ where
         return Err("from_be/le_bytes does not invert to_be/le_bytes".into());
     }
     n += 1;
+    // fixed-size array conversions, by reference and by value: the big-endian form, and what the decoders read
+    let by_ref = <[u8; 32]>::from(sk);
+    let owned: SecretKey<C> = SecretKey(sk.0); // an owned copy (derive(Clone) would need C: Clone and fall back to cloning the reference)
+    let by_val = <[u8; 32]>::from(owned);
+    if by_ref != be || by_val != be {
+        return Err("the [u8; 32] conversions of a secret key (by reference / by value) differ from to_be_bytes".into());
+    }
+    let c = SecretKey::<C>::try_from(&by_val[..]).map_err(|e| format!("sk from its by-value array: {e}"))?;
+    if &c != sk {
+        return Err("a secret key moved into an array and decoded again is another key".into());
+    }
+    n += 1;
     Ok(n)
 }
